@@ -18,10 +18,14 @@ Definition amap : Type := Z -> option (Z * T).
 Definition empty_map : amap := fun _ => None.
 
 (* the cell a region (a, d, t) provides at address x, if it covers x *)
-Definition region_at (a : Z) (d : list Z) (t : T) (x : Z) : option (Z * T) :=
+Definition region_at_slow (a : Z) (d : list Z) (t : T) (x : Z) : option (Z * T) :=
   if a <=? x then
     match nth_error d (Z.to_nat (x - a)) with Some b => Some (b, t) | None => None end
   else None.
+(* same function, guarded so that it is cheap to evaluate far away from the region
+   (Z.to_nat of a 64-bit distance must never be computed); BackingProofs.region_at_slow_eq *)
+Definition region_at (a : Z) (d : list Z) (t : T) (x : Z) : option (Z * T) :=
+  if (a <=? x) && (x - a <? Z.of_nat (length d)) then region_at_slow a d t x else None.
 
 (* a region write: the most recent region covering an address wins *)
 Definition overwrite (m : amap) (a : Z) (d : list Z) (t : T) : amap :=
